@@ -129,7 +129,7 @@ def c17(ctx):
     cov = dict(
         evaluations=rep["evaluations"],
         distinct_nontrivial=rep["extra"]["series_with_a_binary_identification"],
-        rule="model: LimitMono.tla, every assignment of %d root detectors to the two shapes found in the code (monotone threshold; hand-over to a later sibling, as ttf to mdb / accdb) with thresholds within the bound and every pair L < L' (0 = unlimited as the largest): a binary first acceptor at L implies one at L'; the counter-model appears as soon as a bounded detector without hand-over is admitted (sanity run). observations: every corpus and generated sample extended with a text-like, a random and a NUL tail, detected at every limit 1..700, then geometrically to 16 KiB, then unlimited; TraceMono.tla requires that once a non-text format is reported it stays non-text. non-trivial = series in which some limit gives a binary identification" % (3),
+        rule="model: LimitMono.tla, every assignment of %d root detectors to the two shapes found in the code (monotone threshold; hand-over to a later sibling, as ttf to mdb / accdb) with thresholds within the bound and every pair L < L' (0 = unlimited as the largest): a binary first acceptor at L implies one at L'; the counter-model appears as soon as a bounded detector without hand-over is admitted (sanity run). observations: every corpus and generated sample extended with a text-like, a random, a NUL, a line-break and a `-WB_MC1.0` tail, short samples followed by the head of other samples, samples through a pipe, and 200 KB files carrying a small archive behind an unknown header (limits up to 1 MiB), detected at every limit 1..700, then geometrically to 16 KiB, then unlimited; TraceMono.tla requires that once a non-text format is reported it stays non-text. non-trivial = series in which some limit gives a binary identification" % (3),
         exhaustive=False,
         root_level_binary_formats_seen=rep["extra"]["distinct_root_level_binary_formats_seen"],
         samples=rep["samples"][:4],
@@ -168,7 +168,7 @@ def c18(ctx):
     cov = dict(
         evaluations=rep["evaluations"],
         distinct_nontrivial=rep["extra"]["single_byte_corruptions"],
-        rule="shapes: format {USTAR, PAX, GNU} x type {regular, directory, symlink, hard link, character device, fifo} x name length {1,60,99,100,101,155,200,256} x numeric fields {small, maximal octal, beyond octal (base-256 / PAX records)} x user names {empty, ASCII, non-ASCII} x name prefix {plain, MZ, PK34, %%PDF-, GIF89a, ./, non-ASCII}: %d classes enumerated by TLC, %d written by archive/tar (the rest are refused by the writer itself); TraceTar.tla recomputes both checksums from the logged first block (Tar.tla), checks that the writer recorded the unsigned sum, that the detector and Detect report tar (unless an earlier root signature claims the bytes). corruption: all 512 x 255 single-byte changes of %d first blocks through the Tar detector and Detect; outside bytes 148..155 none may still be tar. The arithmetic lemma behind it is checked by TLC over all byte pairs and proved unbounded by TLAPS. non-trivial = single-byte corruptions executed" % (rep["extra"]["shapes"], rep["extra"]["headers_written"], rep["extra"]["headers_corrupted_exhaustively"]),
+        rule="shapes: format {USTAR, PAX, GNU} x type {regular, directory, symlink, hard link, character device, fifo, links whose TARGET ends in /gpkg-1} x name length {1,60,99,100,101,155,200,256} x numeric fields {small, maximal octal, beyond octal (base-256 / PAX records)} x user names {empty, ASCII, non-ASCII} x name prefix {plain, MZ, PK34, %%PDF-, GIF89a, ./, non-ASCII, and the signatures of root formats consulted AFTER tar: BZh, xar!, FITS card, BM, ID3, fLaC, RIFF..WAVE, ftyp} x limit {0, 512, 1000, 2000, 3072, 10000}: %d classes enumerated by TLC, %d written by archive/tar (the rest are refused by the writer itself); TraceTar.tla recomputes both checksums from the logged first block (Tar.tla), checks that the writer recorded the unsigned sum, that the detector and Detect report tar (unless one of the 22 root formats consulted before tar, HigherThanTar, claims the bytes). corruption: all 512 x 255 single-byte changes of %d first blocks through the Tar detector and Detect; outside bytes 148..155 none may still be tar. The arithmetic lemma behind it is checked by TLC over all byte pairs and proved unbounded by TLAPS. non-trivial = single-byte corruptions executed" % (rep["extra"]["shapes"], rep["extra"]["headers_written"], rep["extra"]["headers_corrupted_exhaustively"]),
         exhaustive=False,
         drift=drift,
         writer_sum_not_unsigned=nonconf,
@@ -238,7 +238,7 @@ def c19(ctx):
     cov = dict(
         evaluations=rep["evaluations"] + srep["evaluations"],
         distinct_nontrivial=rep["distinct_nontrivial"] + srep["distinct_nontrivial"],
-        rule="model: ZipWalk.tla lays out archives by arithmetic (30-byte local headers, names, extra fields, bodies, data descriptors, central directory) and runs zipContains as cursor arithmetic (jump csize+49, next local header at or after the cursor, four hops); TLC checks for every archive of <= 3 entries over the name classes (OOXML bookkeeping parts, word/ xl/ ppt/, MANIFEST.MF, APK markers, near-misses, unrelated names of 1-200 bytes) x body sizes (0 .. 300 bytes, and 70 000 bytes in a dedicated run) x with / without data descriptors that the model's class is one the statement allows and that every slice is in bounds; archives of up to 8 entries by simulation. every archive is built with archive/zip (stored or deflated with the exact compressed size, CreateHeader or CreateRaw), read back with archive/zip (oracle for entry names), and run through Detect at limit 0: class must be allowed, parent must be application/zip; plus archives whose first entry is the stored `mimetype` file for every ODF / EPUB type. non-trivial = archives for which the statement allows exactly one non-zip class",
+        rule="model: ZipWalk.tla lays out archives by arithmetic (30-byte local headers, names, extra fields, bodies, data descriptors, central directory) and runs zipContains as cursor arithmetic (jump csize+49, next local header at or after the cursor, four hops); TLC checks for every archive of <= 3 entries over the name classes (OOXML bookkeeping parts, word/ xl/ ppt/, MANIFEST.MF, APK markers, near-misses, unrelated names of 1-200 bytes) x body sizes (0 .. 300 bytes, and 70 000 bytes in a dedicated run) x with / without data descriptors that the model's class is one the statement allows and that every slice is in bounds; archives of up to 8 entries by simulation. every archive is built with archive/zip (stored or deflated with the exact compressed size, CreateHeader or CreateRaw), read back with archive/zip (oracle for entry names), and run through Detect at limit 0: class must be allowed, parent must be application/zip; plus archives whose first entry is the stored `mimetype` file for every ODF / EPUB type (with and without data descriptors, followed by ordinary parts or by JAR / APK marker names); every archive is detected a second time inside ONE buffer shared by all archives of its length, and the verdict must equal the one on a private copy. non-trivial = archives for which the statement allows exactly one non-zip class",
         exhaustive=True,
         drift=dict(exhaustive=rep["drift"], simulated=srep["drift"], samples=(rep.get("drift_samples", []) + srep.get("drift_samples", []))[:3]),
         classes=rep["extra"]["classes"],
